@@ -28,7 +28,7 @@ DEC_W = (0.1, 0.25, 0.3, 0.5, 0.7, 1.5)
 DEC_C = (0.3, 0.5, 0.6, 1.0, 1.1, 2.0)
 
 
-def judge_knapsack(values, weights, capacity, minimize, exact):
+def judge_knapsack(values, weights, capacity, minimize, exact, optimality=True):
     from solvor.knapsack import solve_knapsack
     from solvor.types import Status
 
@@ -57,7 +57,7 @@ def judge_knapsack(values, weights, capacity, minimize, exact):
             v = sum(values[i] for i in range(n) if m >> i & 1)
             if best is None or (v < best if minimize else v > best):
                 best = v
-    if res.status == Status.OPTIMAL and best is not None:
+    if optimality and res.status == Status.OPTIMAL and best is not None:
         if (tv > best + 1e-9) if minimize else (tv < best - 1e-9):
             errs.append(("optimal_but_not_best", f"status OPTIMAL with value {tv}, but a subset within capacity has value {best}"))
     if res.status not in (Status.OPTIMAL, Status.FEASIBLE):
@@ -100,7 +100,7 @@ def judge_binpack(sizes, capacity, algorithm, exact, opt):
     if k < lb:
         errs.append(("below_lower_bound", f"{k} bins < ceil(total/capacity) = {lb}"))
     if opt is not None:
-        if "decreasing" in algorithm and k > Fraction(11, 9) * opt + Fraction(6, 9):
+        if "decreasing" in algorithm.lower() and k > Fraction(11, 9) * opt + Fraction(6, 9):
             errs.append(("guarantee", f"{algorithm} used {k} bins, optimum {opt}, bound 11/9*OPT+6/9 = {float(Fraction(11, 9) * opt + Fraction(6, 9)):.3f}"))
         if res.status == Status.OPTIMAL and k != opt:
             errs.append(("optimal_but_not_minimal", f"status OPTIMAL with {k} bins, minimum is {opt}"))
@@ -176,6 +176,30 @@ def _knap_dec_chunk(params, lo, hi):
     return r
 
 
+FINE_W = (0.3334, 0.5001, 0.2499, 0.0004)
+FINE_C = (1.0, 0.75, 0.001)
+
+
+def _knap_fine_chunk(params, lo, hi):
+    """weights finer than the solver's scaling grid (1/1000 of the capacity): the DP works on floored weights and the
+    statement claims exact optimality only for integer data, so only the capacity and objective clauses are judged"""
+    n = params
+    r = new_result()
+    for idx in range(lo, hi):
+        minimize = bool(idx % 2)
+        k = idx // 2
+        cap = FINE_C[k % 3]
+        ds = digits(k // 3, 8, n)
+        values = [1 + d % 2 for d in ds]
+        weights = [FINE_W[d // 2] for d in ds]
+        errs, label, nt = judge_knapsack(values, weights, cap, minimize, False, optimality=False)
+        _rec(r, "solve_knapsack", errs, label, nt, {"values": values, "weights": weights, "capacity": cap, "minimize": minimize, "decimal": True, "fine": True})
+        if len(r["violations"]) >= 40 or too_many_hangs():
+            r["capped"] = True
+            break
+    return r
+
+
 BIG_CAPS = (100000, 100001, 200000)
 
 
@@ -212,6 +236,28 @@ def _bin_chunk(params, lo, hi):
         for algo in ALGOS:
             errs, label = judge_binpack(sizes, cap, algo, True, opt)
             _rec(r, "solve_bin_pack", errs, label, opt > 1, {"sizes": sizes, "capacity": cap, "algorithm": algo})
+        if len(r["violations"]) >= 40 or too_many_hangs():
+            r["capped"] = True
+            break
+    return r
+
+
+SPELLINGS = ALGOS + ("first_fit_decreasing", "BEST_FIT_DECREASING", "ff-decreasing", "bf_decreasing", "ff", "bf", "First-Fit", "Best_Fit")
+TRIPLES = [(a, b, c) for a in range(1, 13) for b in range(a, 13) for c in range(b, 13)]
+
+
+def _bin_triples_chunk(params, lo, hi):
+    """nine items: three copies each of a <= b <= c (1..12) in bins of 20, listed ascending or interleaved (the orders that
+    hurt an unsorted first fit most), under every accepted spelling of the algorithm name: the smallest size at which
+    the 11/9 OPT + 6/9 clause separates the decreasing variants from the plain ones"""
+    r = new_result()
+    for idx in range(lo, hi):
+        a, b, c = TRIPLES[idx // 2]
+        sizes = [a, a, a, b, b, b, c, c, c] if idx % 2 == 0 else [a, b, c] * 3
+        opt = min_bins([Fraction(x) for x in sizes], Fraction(20))
+        for algo in SPELLINGS:
+            errs, label = judge_binpack(sizes, 20, algo, True, opt)
+            _rec(r, "solve_bin_pack", errs, label, opt > 1, {"sizes": sizes, "capacity": 20, "algorithm": algo})
         if len(r["violations"]) >= 40 or too_many_hangs():
             r["capped"] = True
             break
@@ -255,6 +301,9 @@ def jobs(tier, seed):
         js.append(Job(f"knapsack_n{n}", 16**n * 7 * 2, _knap_chunk, n, describe="values, weights in {0..3}, capacity 0..6, max and min"))
     for n in (1, 2, 3):
         js.append(Job(f"knapsack_decimal_n{n}", 18**n * 6 * 2, _knap_dec_chunk, n, describe="decimal weights/capacities, values 1..3"))
+    for n in (2, 3, 4):
+        js.append(Job(f"knapsack_fine_decimal_n{n}", 8**n * 3 * 2, _knap_fine_chunk, n, describe="weights in {0.3334,0.5001,0.2499,0.0004} (finer than the DP's scaling grid), capacities {1.0,0.75,0.001}, values {1,2}: capacity and objective clauses only"))
+    js.append(Job("binpack_nine_items_three_sizes", len(TRIPLES) * 2, _bin_triples_chunk, None, describe="3 copies each of a<=b<=c in 1..12, capacity 20, ascending and interleaved order, 12 spellings of the four algorithm names"))
     js.append(Job("knapsack_big_integer_capacity", 3 * 64 * 8, _knap_big_chunk, None, chunk=8, describe="3 items, capacity in {100000,100001,200000}, weights in {1,2,C-2,C}, values {1,10}: exact integer data beyond the DP's table threshold"))
     for tenths, nmax_d in ((3, 5), (7, 5), (9, 4 if tier == "quick" else 5)):
         for n in range(1, nmax_d + 1):
@@ -271,7 +320,7 @@ def jobs(tier, seed):
 def replay(v):
     w = v["witness"]
     if v["function"] == "solve_knapsack":
-        errs, _, _ = judge_knapsack(w["values"], w["weights"], w["capacity"], w["minimize"], not w.get("decimal"))
+        errs, _, _ = judge_knapsack(w["values"], w["weights"], w["capacity"], w["minimize"], not w.get("decimal"), optimality=not w.get("fine"))
     else:
         if w.get("decimal"):
             opt = min_bins([Fraction(int(round(s * 10)), 10) for s in w["sizes"]], Fraction(int(round(w["capacity"] * 10)), 10))
